@@ -59,6 +59,17 @@ Theorem p2i_formula : forall x64 ps cs, all_pos ps -> fits x64 (prod ps) -> ps <
 Proof. exact p2i_formula_l. Qed.
 Print Assumptions p2i_formula.
 
+(* = the row-major (C order) flat index of element (c_{d-1},...,c_0) in an array of shape
+   self.shape = reversed pixel_shape *)
+Theorem p2i_row_major : forall x64 ps cs, all_pos ps -> fits x64 (prod ps) -> ps <> [] ->
+  length cs = length ps -> in_map cs ps = true ->
+  p2i x64 ps (fin (ints cs)) = Index (width x64 (prod ps)) (c_order (rev cs) (rev ps)).
+Proof. exact p2i_row_major_l. Qed.
+Print Assumptions p2i_row_major.
+(* pixel2index() without coordinates is rejected *)
+Theorem p2i_zero_coordinates : forall x64 ps, fits x64 (prod ps) -> p2i x64 ps [] = Raised TypeError.
+Proof. exact p2i_zero_coordinates_l. Qed.
+
 Theorem p2i_range : forall x64 ps cs, all_pos ps -> fits x64 (prod ps) -> ps <> [] ->
   length cs = length ps -> in_map cs ps = true ->
   exists i, p2i x64 ps (fin (ints cs)) = Index (width x64 (prod ps)) i /\ 0 <= i < prod ps.
